@@ -202,7 +202,7 @@ Qed.
 (** * no surviving write of the new life covers the bytes of an object in a restored block,
       as long as the surviving state file still lists the block *)
 
-Lemma no_cover g base t0 c K n chd a b0 off size z :
+Lemma no_write g base t0 c K n a b0 off size z :
   (0 < g_sector g)%Z -> NoDup (map b_loc (blocks (pre g base))) ->
   reuse_witness c K -> A.ainv (cs_cur (cinit g base t0)) c ->
   (forall a', a' < length (blocks (pre g base)) ->
@@ -211,14 +211,11 @@ Lemma no_cover g base t0 c K n chd a b0 off size z :
   (dlw (firstn n (cs_log c)) = None \/
    exists q st, (forall lw, dlw (firstn n (cs_log c)) = Some lw -> lw <= q) /\
      nth_error (cs_log c) q = Some (IoWriteNew st) /\ K q <= a) ->
-  forall w, In w (data_durable (firstn n (cs_log c)) ++ select chd (data_pending (firstn n (cs_log c)))) ->
-    covers w (b_loc b0) z = false.
+  forall p u lc lo hi, p < n -> nth_error (cs_log c) p = Some (IoData u lc lo hi) ->
+    covers (u, lc, lo, hi) (b_loc b0) z = false.
 Proof.
-  intros Hsec Hnl [W1 W2 W3 W4] AI Hloc Hb0 Hoff Hz Hstate w Hw.
-  destruct (covers w (b_loc b0) z) eqn:Ec; [exfalso|reflexivity].
-  rewrite surv_data in Hw. apply in_map_iff in Hw. destruct Hw as ([p w'] & Ew & Hin). cbn in Ew. subst w'.
-  apply surv_in in Hin. destruct Hin as (u & lc & lo & hi & -> & Hp).
-  apply E.nth_firstn in Hp. destruct Hp as [Hpn Hp].
+  intros Hsec Hnl [W1 W2 W3 W4] AI Hloc Hb0 Hoff Hz Hstate p u lc lo hi Hpn Hp.
+  destruct (covers (u, lc, lo, hi) (b_loc b0) z) eqn:Ec; [exfalso|reflexivity].
   cbn in Ec. apply andb_true_iff in Ec. destruct Ec as [Ec Ec3]. apply andb_true_iff in Ec. destruct Ec as [Ec1 Ec2].
   apply loc_eqb_eq in Ec1. subst lc. apply Z.leb_le in Ec2. apply Z.ltb_lt in Ec3.
   destruct (A.ai_data _ _ AI _ _ _ _ (nth_error_In _ _ Hp)) as (u' & U1 & U2 & U3).
@@ -248,6 +245,25 @@ Proof.
     apply E.nth_firstn in Hstw'. destruct Hstw' as [_ Hstw'].
     pose proof (W2 _ _ _ _ Hww Hstw Hstw') as HK1.
     pose proof (W2 _ _ _ _ Hlw Hstw' Hq) as HK2. lia.
+Qed.
+
+Lemma no_cover g base t0 c K n chd a b0 off size z :
+  (0 < g_sector g)%Z -> NoDup (map b_loc (blocks (pre g base))) ->
+  reuse_witness c K -> A.ainv (cs_cur (cinit g base t0)) c ->
+  (forall a', a' < length (blocks (pre g base)) ->
+     nth_error (cs_locs c) a' = nth_error (map b_loc (blocks (pre g base))) a') ->
+  nth_error (blocks (pre g base)) a = Some b0 -> (off + size <= b_written b0)%Z -> (off <= z < off + size)%Z ->
+  (dlw (firstn n (cs_log c)) = None \/
+   exists q st, (forall lw, dlw (firstn n (cs_log c)) = Some lw -> lw <= q) /\
+     nth_error (cs_log c) q = Some (IoWriteNew st) /\ K q <= a) ->
+  forall w, In w (data_durable (firstn n (cs_log c)) ++ select chd (data_pending (firstn n (cs_log c)))) ->
+    covers w (b_loc b0) z = false.
+Proof.
+  intros Hsec Hnl W AI Hloc Hb0 Hoff Hz Hstate w Hw.
+  rewrite surv_data in Hw. apply in_map_iff in Hw. destruct Hw as ([p w'] & Ew & Hin). cbn in Ew. subst w'.
+  apply surv_in in Hin. destruct Hin as (u & lc & lo & hi & -> & Hp).
+  apply E.nth_firstn in Hp. destruct Hp as [Hpn Hp].
+  eapply (no_write g base t0 c K n a b0 off size z); eauto.
 Qed.
 
 (** * the bytes of a completed, durable upload of the life that just crashed *)
@@ -438,3 +454,110 @@ Proof.
         rewrite (native_owner g cfg base t0 c ch K n chx (r_up r) up (bs_loc bi) z R Sm HSH W N1 N7 Hlu Hdur); [reflexivity| |lia].
         exists q, ((oldest, bl), h). splits; auto. rewrite N2. unfold a. lia.
 Qed.
+
+(** ------------------------------------------------------------------ *)
+(** * arbitrarily many lives *)
+
+Theorem lives_SafeF g H m : length (g_locs g) < 65536 -> NoDup (g_locs g) -> (0 < g_sector g)%Z ->
+  lives g H m -> SafeF g H m.
+Proof.
+  intros Hg Hnd Hsec HL. induction HL as [|H base lf HL IH R]; [apply SafeF_empty|]. apply SafeF_step; auto.
+Qed.
+
+Lemma pre_released g m : totalReleased (pre g m) = 0.
+Proof. destruct (restart_shape g (m_state m)) as (_ & _ & R3 & _). exact R3. Qed.
+
+Lemma resolves_sres g m slot r i : resolves g m slot r i ->
+  exists slot', In (slot', r) (m_index m) /\ sres (pre g m) r i.
+Proof.
+  intros [H1 H2]. apply E.slot_get_in in H1. destruct H1 as [H1|[slot' H1]]; [discriminate|].
+  exists slot'. split; [exact H1|]. apply resolve_sres; [apply pre_released|exact H2].
+Qed.
+
+(** ---- repeated crashes ---- *)
+Theorem repeated_crash g H m : length (g_locs g) < 65536 -> NoDup (g_locs g) -> (0 < g_sector g)%Z ->
+  lives g H m -> forall slot r i, resolves g m slot r i -> good g H m r i.
+Proof.
+  intros Hg Hnd Hsec HL slot r i Hres. destruct (lives_SafeF _ _ _ Hg Hnd Hsec HL) as [_ S].
+  destruct (resolves_sres _ _ _ _ _ Hres) as (slot' & Hin & Hs). eauto.
+Qed.
+
+(** … on the data device itself (life tags erased): the owner of every byte is that upload's tag *)
+Theorem repeated_crash_bytes g H m : length (g_locs g) < 65536 -> NoDup (g_locs g) -> (0 < g_sector g)%Z ->
+  lives g H m -> forall slot r i, resolves g m slot r i ->
+  exists j lf k up b,
+    nth_error H j = Some lf /\ nth_error (cs_ups (lf_c lf)) k = Some up /\
+    up_key up = r_key r /\ up_off up = r_off r /\ up_size up = r_size r /\ up_state up = UpFin true /\
+    nth_error (blocks (pre g m)) i = Some b /\ nth_error (cs_locs (lf_c lf)) (up_abs up) = Some (b_loc b) /\
+    (r_off r + r_size r <= b_written b)%Z /\
+    forall z, (r_off r <= z < r_off r + r_size r)%Z -> byte_owner (m_data m) (b_loc b) z None = Some k.
+Proof.
+  intros Hg Hnd Hsec HL slot r i Hres.
+  destruct (repeated_crash _ _ _ Hg Hnd Hsec HL _ _ _ Hres)
+    as (j & lf & k & up & b & l & G1 & G2 & G3 & G4 & G5 & G6 & G7 & G8 & G9 & G10 & G11 & G12 & G13).
+  exists j, lf, k, up, b. subst l. splits; auto.
+  intros z Hz. rewrite (lives_data _ _ _ HL).
+  pose proof (towner_owner (hist_data H) (b_loc b) z None) as T. cbn [option_map] in T.
+  rewrite <- T, (G13 z Hz). reflexivity.
+Qed.
+
+(** ---- no overwrite after restart, for a life on the media of ANY history ----
+    once a data write of the new life has touched a byte of a location that resolved at the
+    restart, that record never resolves again: the region was handed out again only after a
+    state file without the block was durable (whether or not the write itself survives) *)
+Theorem no_overwrite_after_restart g H base cfg t0 c :
+  length (g_locs g) < 65536 -> NoDup (g_locs g) -> (0 < g_sector g)%Z ->
+  lives g H base -> creach g cfg base t0 c ->
+  forall slot r i b, resolves g base slot r i -> nth_error (blocks (pre g base)) i = Some b ->
+  forall q k lo hi z, nth_error (cs_log c) q = Some (IoData k (b_loc b) lo hi) ->
+    (r_off r <= z < r_off r + r_size r)%Z -> (lo <= z < hi)%Z ->
+  forall n ch, q < n -> forall slot' i', ~ resolves g (crash_of base c n ch) slot' r i'.
+Proof.
+  intros Hg Hnd Hsec HLv R slot r i b Hres Hb q k lo hi z Hq Hz Hlohi n ch Hqn slot' i' Hres'.
+  destruct (lives_SafeF _ _ _ Hg Hnd Hsec HLv) as [Hbase HG].
+  destruct (resolves_sres _ _ _ _ _ Hres) as (s0 & Hin0 & Hs0).
+  destruct (HG _ _ _ Hin0 Hs0) as (j & lf0 & k0 & up & b' & l & _ & _ & _ & _ & _ & _ & _ & _ & _ & G10 & _ & G12 & _).
+  rewrite Hb in G10. inv G10.
+  destruct (region_reuse_any_base g cfg base t0 c Hg Hnd Hbase R) as [K W].
+  pose proof W as [W1 W2 W3 W4].
+  pose proof (A.creach_ainv _ _ _ _ _ R) as AI.
+  pose proof (ginv_any_base g cfg base t0 c Hg Hnd Hbase R) as G.
+  pose proof (A.gi_nodup _ _ _ G) as Hnds.
+  assert (Hpre : (exists X, cs_locs c = map b_loc (blocks (pre g base)) ++ X) /\
+                 (exists Ys Zs, cs_seeds c = epochSeeds (pre g base) ++ Ys /\ cs_elast c = epochLast (pre g base) ++ Zs)).
+  { destruct R as [tr Htr]. apply (crun_prefix _ _ _ _ _ Htr). }
+  destruct Hpre as [[X HX] (Ys & Zs & HY & HZ)].
+  assert (Hloc : forall a', a' < length (blocks (pre g base)) ->
+            nth_error (cs_locs c) a' = nth_error (map b_loc (blocks (pre g base))) a').
+  { intros a' Ha'. rewrite HX, nth_error_app1 by (rewrite map_length; exact Ha'). reflexivity. }
+  assert (Hcv : covers (k, b_loc b', lo, hi) (b_loc b') z = true).
+  { cbn. rewrite loc_eqb_refl. cbn. apply andb_true_iff. split; [apply Z.leb_le|apply Z.ltb_lt]; lia. }
+  assert (Hnw : (dlw (firstn n (cs_log c)) = None \/
+                 exists q0 st, (forall lw, dlw (firstn n (cs_log c)) = Some lw -> lw <= q0) /\
+                   nth_error (cs_log c) q0 = Some (IoWriteNew st) /\ K q0 <= i) -> False).
+  { intros Hstate.
+    pose proof (no_write g base t0 c K n i b' (r_off r) (r_size r) z Hsec (proj2 Hbase) W AI Hloc Hb G12 Hz Hstate
+                  q k (b_loc b') lo hi Hqn Hq) as Hf. congruence. }
+  destruct (resolves_sres _ _ _ _ _ Hres') as (s1 & Hin1 & Hs1).
+  pose proof (shaped_firstn _ n W1) as Shn. unfold crash_of in *.
+  set (m' := crash_medium base (firstn n (cs_log c)) ch) in *.
+  destruct (m_state m') as [x|] eqn:Ex.
+  2:{ unfold pre in Hs1. rewrite Ex in Hs1. destruct Hs1 as (j1 & e1 & S1 & _). destruct j1; discriminate. }
+  destruct (dir_survivor_any _ _ _ _ Shn Ex) as [[Eb Hno]|(q0 & Hq0 & Hlw)].
+  - apply Hnw. left. exact Hno.
+  - destruct x as [[oldest bl] h]. apply E.nth_firstn in Hq0. destruct Hq0 as [_ Hq0].
+    pose proof (W3 _ _ _ Hq0) as Hst.
+    assert (Epre : pre g m' = fst (pbl_new (fun (l : loc) (_ : Z) => geom g l) oldest bl)) by (unfold pre; rewrite Ex; reflexivity).
+    rewrite Epre in Hs1.
+    destruct (sres_state _ _ _ r oldest bl _ i' (K q0) Hst Hs1) as [D _].
+    assert (D0 : DES (cs_seeds c) (cs_elast c) r i).
+    { destruct Hs0 as (j0 & e0 & S1 & S2 & S3). apply DES_iff. exists j0, e0. rewrite HY, HZ.
+      splits; auto; apply A.nth_error_app_some; assumption. }
+    assert (i = K q0 + i') by (eapply DES_fun; eauto).
+    apply Hnw. right. exists q0, ((oldest, bl), h). splits; auto. lia.
+Qed.
+
+Print Assumptions SafeF_step.
+Print Assumptions repeated_crash.
+Print Assumptions repeated_crash_bytes.
+Print Assumptions no_overwrite_after_restart.
